@@ -10,7 +10,11 @@ X == <<"x", RealD>>
 Y == <<"y", RealD>>
 L_Leaves == <<
   Gs(<<BB, CC, X>>, 1, <<1, 2, 3, -1>>, <<0, 1, -1, 2>>),
-  Gs(<<CC, X, BB>>, 2, <<1, 0,  2, 1,  1, 1,  0, 2>>, <<1, 0, 0, 1, 2, 1, -1, 0>>) >>
+  Gs(<<CC, X, BB>>, 2, <<1, 0,  2, 1,  1, 1,  0, 2>>, <<1, 0, 0, 1, 2, 1, -1, 0>>),
+  \* three real inputs and one batch input: partial substitution of two of the reals (the pairs are
+  \* also handed to Subs in reverse input order by the harness)
+  Gs(<<<<"z", RealD>>, BB, X, Y>>, 3,
+     <<1, 0, 1,  0, 1, 1,  1, 0, 2,     2, 0, 1,  1, 1, 0,  0, 1, 3>>, <<1, 1, 0,  -1, 0, 2>>) >>
 L_UnOps == <<>>
 L_BinOps == <<>>
 L_RedOps == <<>>
